@@ -5,11 +5,18 @@ C03 — no implicit declassification.
     application of an operator other than `to_public` / `public_equals` is typed at least as secret
     as each operand; `random()` is secret; the recorded MIR type name is the type's own name.
     Closed-form corollaries for the model used by the graph layer.
-(b) Graph level: the taint analysis over whole MIRs is run as an oracle on every real MIR and the
-    typing rules of the collection operations that carry secrecy through containers are theorems in
-    `Props/C12.lean`; the whole-program theorem `typed_covers_taint` is work in progress.
+(b) Graph level, **whole programs** (`typed_covers_taint`): after any command list run cleanly (`Edge.cleanRunB`, the run-time
+    form of hypothesis `NoRewrap`) in which every `reduce` starts from a value of its function's return type
+    (`Taint.reduceInitOK`, the part of `BindingConsistent` the conclusion needs), a leaf of any traced operation that depends
+    on a secret — through any chain of operand references, containers and function bodies, anything but `Reveal` /
+    `PublicOutputEquality` — is typed secret (`Taint.taintF`, `Taint.secretAt`; proof: `Lemmas/TaintSound.lean`, induction on
+    the length of the dependence chain over the edge-consistent store of `C05.trace_edges_consistent`).  Inside a function
+    body a parameter counts as a source exactly where its declared type is secret; `call_args_covered` is the matching
+    obligation at call sites.  `rewrap_declassifies`: the hypothesis is necessary.  The same analysis runs as a Python oracle
+    on every real MIR.
 -/
 import NadaVerif.Spec.C03
+import NadaVerif.Lemmas.TaintSound
 
 namespace NadaVerif.C03
 open NadaVerif NadaVerif.Generated
@@ -58,6 +65,41 @@ MIR means literal or public in the DSL). -/
 theorem mirName_secret_iff (t : STy) :
     (["SecretInteger", "SecretUnsignedInteger", "SecretBoolean"].contains t.mirName) = (t.mode == .sec) := by
   obtain ⟨m, b⟩ := t; cases m <;> cases b <;> decide
+
+/-- **No implicit declassification, whole programs.** -/
+theorem typed_covers_taint (cs : List Cmd) (hc : Edge.cleanRunB {} cs = true)
+    (hR : Taint.reduceInitOK (runCmds {} cs).1.st = true) :
+    (∀ (fuel : Nat) (k : Id) (π : Taint.Path) (op : AstOp), (runCmds {} cs).1.st.lookup k = some op →
+      Taint.taintF (runCmds {} cs).1.st fuel k π = true → Taint.secretAt op.ty π = true) ∧
+    Taint.storeTaintOK (runCmds {} cs).1.st = true :=
+  ⟨Lemmas.trace_no_declass cs hc hR, Lemmas.trace_taint_ok cs hc hR⟩
+
+theorem call_args_covered (cs : List Cmd) (hc : Edge.cleanRunB {} cs = true)
+    (hR : Taint.reduceInitOK (runCmds {} cs).1.st = true) (args : List Id) (ptys : List MTy)
+    (hb : Edge.tysOf (Edge.tyAtS (runCmds {} cs).1.st) args = some ptys) :
+    ∀ (i : Nat) (arg : Id) (fuel : Nat) (π : Taint.Path), args[i]? = some arg →
+      Taint.taintF (runCmds {} cs).1.st fuel arg π = true → ∃ pt, ptys[i]? = some pt ∧ Taint.secretAt pt π = true :=
+  Lemmas.call_args_covered _ ((Lemmas.storeEdgesOK_iff _).1 (Lemmas.trace_edges_okB cs hc)) hR args ptys hb
+
+/-- non-vacuity: in this program the second component of the zipped array (operation 3, leaf `elem.right`), the second half
+of its unzipping (operation 4, leaf `right.elem`) and the product (operation 7) depend on secret inputs; the first
+components, the revealed product (8) and what is computed from it (9) do not; the hypotheses hold -/
+def demo : List Cmd :=
+  [.party "P", .inputObj "s" "" 0, .wrap ⟨.sec, .int⟩ 1, .arrayOf 2 (some 2), .inputObj "p" "" 0, .wrap ⟨.pub, .int⟩ 4, .arrayOf 5 (some 2),
+   .zip 6 3, .unzip 7, .inputObj "q" "" 0, .wrap ⟨.pub, .int⟩ 9, .inputObj "t" "" 0, .wrap ⟨.sec, .int⟩ 11, .bin .mul 10 12,
+   .reveal 13, .bin .add 14 10]
+example : Edge.cleanRunB {} demo = true ∧ Taint.reduceInitOK (runCmds {} demo).1.st = true ∧
+    (runCmds {} demo).2.all (· == none) = true ∧
+    Taint.taintF (runCmds {} demo).1.st 20 3 [.elem, .right] = true ∧ Taint.taintF (runCmds {} demo).1.st 20 3 [.elem, .left] = false ∧
+    Taint.taintF (runCmds {} demo).1.st 20 4 [.right, .elem] = true ∧ Taint.taintF (runCmds {} demo).1.st 20 4 [.left, .elem] = false ∧
+    Taint.taintF (runCmds {} demo).1.st 20 7 [] = true ∧ Taint.taintF (runCmds {} demo).1.st 20 8 [] = false ∧
+    Taint.taintF (runCmds {} demo).1.st 20 9 [] = false := by decide +kernel
+
+/-- the hypothesis is necessary: an `Input` wrapped public, added to itself, then wrapped secret — the addition is typed
+public and depends on what is now a secret input -/
+theorem rewrap_declassifies :
+    let cs : List Cmd := [.party "P", .inputObj "x" "" 0, .wrap ⟨.pub, .int⟩ 1, .bin .add 2 2, .wrap ⟨.sec, .int⟩ 1]
+    Edge.cleanRunB {} cs = false ∧ Taint.storeTaintOK (runCmds {} cs).1.st = false := by decide +kernel
 
 example : noDeclass ("lt", [⟨.sec, .int⟩, ⟨.sec, .int⟩], [.ok ⟨.pub, .bool⟩ false "LessThan" "Boolean"]) = false := by decide
 
